@@ -77,6 +77,7 @@ def build_check(prefix, sp: AggSpec, clauses=("rejects", "post", "dtype", "shape
                 cx.oblige(f"{tag}.ctor_ok", False)
                 return
             n_events = len(cx.events)
+            cx.ghost["cvx_leaf_n"] = 0
             kind, v = call_catch(lambda: it.call(agg, [J]))
             ok_rows = sp.valid(cx, J, m, n, cfg)
             valid = z3.And(finite(J), ok_rows) if sp.checks_finite else ok_rows
@@ -526,3 +527,52 @@ def spec_pcgrad(it, J, m, n, cfg, cx):
 
 SPECS["PCGrad"] = AggSpec("PCGrad", f"{AGG}.pcgrad.PCGrad", [f"{AGG}.pcgrad._PCGradWeighting.forward"] + BASE_FUNCS, no_cfg,
                           lambda cx, J, m, n, cfg: TRUE, spec_pcgrad)
+
+
+# ----------------------------------------------------------------------------- CAGrad
+
+
+def spec_cagrad(it, J, m, n, cfg, cx):
+    """CAGrad(c): with R R^T = NG(J, norm_eps) (R = U sqrt(S) from the SVD of the normalised Gramian), g0' = R^T 1/m,
+    w_opt = the minimiser over the simplex of (R g0')^T w + c |g0'| |R^T w| (conic problem handed to CLARABEL [T]);
+    weights = 1/m + (c |g0'| / |R^T w_opt|) w_opt, or 0 when |R^T w_opt| < norm_eps (stationarity)."""
+    import numpy as _np  # noqa: F401
+    B = S.B
+    c, eps = cfg["c"], cfg["norm_eps"]
+    small, g0, g1 = S.NG(it, J, eps)
+    cases = []
+    for cond, G in ((small, g0), (z3.Not(small), g1)):
+        with cx.mute():
+            cx.ghost["cvx_leaf_n"] = 0
+            Um, Sv, _ = P.call(it, "torch.svd", [G], {})
+            Rm = S.matmul(it, Um, P.call(it, "torch.diag", [it.call(it.getattr(Sv, "sqrt"), [])], {}))
+            Ra = S.to_array64(Rm)
+            ones = P.call(it, "numpy.ones", [m], {})
+            g0r = B(it, ast.Div(), S.matmul(it, transpose(Ra), ones), m)
+            sqrt_phi = B(it, ast.Mult(), c, P.call(it, "numpy.linalg.norm", [g0r, 2], {}))
+            w = P.call(it, "cvxpy.Variable", [], {"shape": m})
+            cost = B(it, ast.Add(), S.matmul(it, transpose(S.matmul(it, Ra, g0r)), w),
+                     B(it, ast.Mult(), sqrt_phi, P.call(it, "cvxpy.norm", [S.matmul(it, transpose(Ra), w), 2], {})))
+            prob = P.call(it, "cvxpy.Problem", [], {"objective": P.call(it, "cvxpy.Minimize", [cost], {}),
+                                                    "constraints": [P.compare(it, ast.GtE(), w, 0), P.compare(it, ast.Eq(), P.call(it, "cvxpy.sum", [w], {}), 1)]})
+            w_opt = ATen(U("ConicMin", ArrS, prob.term, w.term, lift("CLARABEL")), [m], S.F64, "numpy")
+            gwn = P.call(it, "numpy.linalg.norm", [S.matmul(it, transpose(Ra), w_opt)], {})
+            big = item_of(gwn) >= as_real(eps)
+            wa = B(it, ast.Div(), P.call(it, "numpy.ones", [m], {}), m)
+            wa = P.binop(it, ast.Add(), wa, B(it, ast.Mult(), B(it, ast.Div(), sqrt_phi, gwn), w_opt), inplace=True)
+            w1 = it.call(it.getattr(P.call(it, "torch.from_numpy", [wa], {}), "to"), [], {"dtype": J.dtype})
+            w0 = it.call(it.getattr(P.call(it, "torch.from_numpy", [P.call(it, "numpy.zeros", [m], {})], {}), "to"), [], {"dtype": J.dtype})
+        cases.append((z3.And(cond, big), vecmat(it, w1, J)))
+        cases.append((z3.And(cond, z3.Not(big)), vecmat(it, w0, J)))
+    return cases
+
+
+def cfg_cagrad(cx, m, J):
+    c, eps = z3.Real("c"), z3.Real("norm_eps")
+    cx.assume(z3.And(c >= 0, eps > 0))
+    return {"c": c, "norm_eps": eps}, {"c": c, "norm_eps": eps}
+
+
+SPECS["CAGrad"] = AggSpec("CAGrad", f"{AGG}.cagrad.CAGrad", [f"{AGG}.cagrad._CAGradWeighting.__init__", f"{AGG}.cagrad._CAGradWeighting.forward",
+                                                            f"{AGG}._gramian_utils._compute_normalized_gramian"] + BASE_FUNCS,
+                          cfg_cagrad, lambda cx, J, m, n, cfg: TRUE, spec_cagrad, ext_raises=("ValueError", "SolverError"))
